@@ -121,6 +121,13 @@ def _worker(args):
     except BaseException as e:  # EngineError is a BaseException
         out.update(ok=False, error="%s: %s" % (type(e).__name__, e), tb=traceback.format_exc())
     out["wall_s"] = round(time.time() - t0, 3)
+    try:
+        from . import core as _c
+        if _c.SITES:
+            for kk, v in sorted(_c.SITES.items(), key=lambda kv: -kv[1])[:25]:
+                print('SITE %6d %s' % (v, kk), file=sys.stderr)
+    except Exception:
+        pass
     return out
 
 
